@@ -229,6 +229,21 @@ def judge_scalar(acc, fmt, rounding, overflow, d, carrier, route, part):
         acc.violation('flags', case, 'fmt=%s mode=%s/%s v=%s/2^%d carrier=%s route=%s: flags %s expected %s'
                       % (fmt.dtype, rounding, overflow, d[0], d[1], carrier, route, fl, (eo, eu, ei)),
                       {'part': part, 'carrier': carrier, 'route': route})
+    if isinstance(v, np.ndarray) and v.ndim >= 1 and route != 'setitem':
+        # the stored code is a function of the value at store time: a second object stored from the SAME array, then an element of the
+        # first rewritten in place - neither the second object nor the caller's array may change
+        try:
+            snap = v.tobytes()
+            y, _ = store(route, v, fmt, rounding, overflow)
+            x.set_val(fmt.hi if ec != fmt.hi else fmt.lo, raw=True, index=(0,) * x.val.ndim)
+            acc.transitions += 2
+            if any(c != ec for c in codes(y)) or v.tobytes() != snap:
+                acc.violation('aliasing', case, 'fmt=%s carrier=%s route=%s: rewriting an element of one object changed %s'
+                              % (fmt.dtype, carrier, route, 'the array it was stored from' if v.tobytes() != snap else 'a second object stored from the same array'),
+                              {'part': part, 'carrier': carrier, 'route': route, 'aspect': 'aliasing'})
+        except Exception as e:
+            acc.violation('exception', case, 'fmt=%s carrier=%s route=%s: second store / indexed rewrite raised %r' % (fmt.dtype, carrier, route, e),
+                          {'part': part, 'carrier': carrier, 'route': route, 'exc': type(e).__name__, 'aspect': 'aliasing'})
     acc.sample(case, 1)
     return True
 
